@@ -85,7 +85,19 @@ CFG = {
             "Any, dictionary, array, disjunction) x 8 positions that reference the type BY NAME (top level, dictionary entry, array "
             "element, heterogeneous element, alternative, wildcard entry, stream entry, through a second named type) x 2 fitted objects "
             "(with the indirect objects an indirect requirement needs) + 1 random object, a decoy registered first under the same "
-            "name one time in three (840 cases)",
+            "name one time in three (840 cases) + after missed seed C08_6 (Any short-cut arm moved above the ForbiddenKey arm): "
+            "forbidden_keys.case (29 hand-built cases) + EXHAUSTIVE key family (Driver/C08Keys.lean), dictionary AND stream types: one "
+            "entry = key requirement {required, optional, forbidden} x kind of its check {Any unconstrained, Any with predicate, Any with "
+            "indirect required, Any with indirect forbidden, primitive, array, nested dictionary, disjunction, named type, named type "
+            "resolving to an unconstrained Any} x state of the key in the object {present with a conforming value, present with a "
+            "non-conforming value, present with a reference, absent} = 120 entries; every 1-entry type (240 cases), every entry beside "
+            "each of 8 filler entries in both orders (3840; thorough: every entry beside every entry, 28800), every entry at each of "
+            "the 3 positions beside 4 filler pairs (2880), and dictionaries with a WILDCARD entry of every requirement x kind against "
+            "0, 1 or 2 unspecified keys in every state beside 5 lists of specified entries (1350): 8310 cases quick / 33270 thorough; "
+            "+ n/5 random dictionaries/streams of 1..3 of the 120 entries (wildcard one time in three) reached at top level, as a "
+            "required/optional entry of an outer dictionary, array element, heterogeneous-array element, behind a name, as an "
+            "alternative of a disjunction, or through a reference; oracle = declarative Conforms (a present forbidden key never "
+            "conforms, whatever its check)",
     "trusted_base": COMMON_TB + [
         "modelled, not verified: BTreeSet/BTreeMap/VecDeque/Rc semantics (memo as a list with the derived structural equality; "
         "predicate identity = structural equality of the model predicate: the harness interns predicates)",
